@@ -975,7 +975,7 @@ fn benign_twin(c: &RepCase) -> RepCase {
 fn page_name(rel: &Path) -> PathBuf {
     match rel.extension() {
         Some(e) => rel.with_extension(format!("{}.html", e.to_str().unwrap())),
-        None => rel.with_extension(".html"),
+        None => rel.with_extension("html"),
     }
 }
 
